@@ -212,6 +212,15 @@ def predicates(depth):
     for e in ("any(any(x == 5 for x in [r.m]) and x == 1 for x in [r.n, 1])", "any(all(x > 0 for x in [r.m, 1]) and x < 0 for x in [r.n])", "any(x == r.n and any(x == r.m for x in [1, 2]) for x in [1, 2])",
               "any(any(y == x for y in [r.m]) for x in [r.n])"):
         add(e, {"may-reject"} if e.count("for x") > 1 else set())
+    # ---- names used only INSIDE a generator element or condition (nested code objects in the compiled engine)
+    for e in ("any(Type.string == x for x in ['a', r.t])", "all(x in Type.string for x in ['a'])", "any(x == 1 for x in [r.n] if Type.varint == r.m)", "any(lower(x) == name(r) for x in [r.s])",
+              "any(net.ipaddress(x) == '1.2.3.4' for x in ['1.2.3.4'])", "any(has_field(r, x) for x in [r.s, 'n'])", "all(field_equals(r, [x], ['a'], nocase=False) for x in ['s', 't'])",
+              "any(Type.varint > x for x in [r.n, r.m])"):
+        add(e, {"ifs"} if " if " in e else set(), {"hunt"} if "lower(" in e else set())
+    # ---- tuple displays stay tuples, list displays stay lists
+    for e in ("(r.n, r.m) == [r.n, r.m]", "(r.s,) != [r.s]", "[r.n] == (r.n,)", "(r.n, 1) + (2,) == (r.n, 1, 2)", "[1] + [r.n] == [1, r.n]", "(r.n, r.s) == (r.m, r.t)", "[r.n, r.s] == [r.m, r.t]",
+              "'%s' % (r.s,) == r.s", "'%s:%s' % (r.s, r.t) == 'a:b'", "(r.n, r.m) in [(1, 2), [1, 2]]", "[r.n, r.m] in [(1, 2)]", "(r.s, r.t) < (r.t, r.s)", "() == []", "(r.b,) == (True,)"):
+        add(e, {"hunt"} if "%" in e else set())
     # ---- and / or / not at the top, a few fixed ones (seeded combinations are added by the harness)
     for e in ("r.b and r.n > 1", "not r.b or r.s == 'a'", "r.s and r.t", "r.n or r.m", "r.n == 1 or r.n == 2 or r.n == 3", "r.n > 1 and r.m > 1 and r.b",
               "not (r.n > 1 and r.m < 3)", "r.b and not r.b", "(r.n > 1) == (r.m > 1)", "(r.n > 1 or r.s == 'a') and (r.m == 2 or r.t != 'b')",
